@@ -18,8 +18,9 @@ import Cx.Spec.ReRef
   * `ccs search|ismatch|findall|count|spec|specall at hayhex minMatch tblhex`
         → `s,e`/`nil`; `true`/`false`; `s.e,s.e,…`/`-`; a number; (`spec` = Spec.ccFind, `specall` = stdlib loop over it)
   * `composite search|ismatch|spec at hayhex parts`       (`spec` = Spec.compFind on the translated parts)
-  * `anchlit match|find|spec at hayhex prefixhex suffixhex tblhex ccMin wildcardMin minLength`  (tblhex may be a dash)
-        (`spec` answers the byte-level specification with dotNL=false, `specs` with dotNL=true)
+  * `anchlit match|find|spec at hayhex prefixhex suffixhex tblhex ccMin wildcardMin minLength dotNL`  (tblhex may be a dash)
+        `dotNL` (LAST argument, `0`/`1`) is the `WildcardMatchesNewline` field of the info
+        (`spec` answers the byte-level specification with that `dotNL`; `specs` forces dotNL=true, `specn` dotNL=false)
   * `re-ccs ast`                      → `nil` or `lo-hi_lo-hi…`           (ExtractCharClassRanges)
   * `re-composite search|ismatch|is at hayhex ast` → result through NewCompositeSearcher (`nil-searcher` if nil);
                                         `is` = IsCompositeCharClassPattern
@@ -30,7 +31,8 @@ import Cx.Spec.ReRef
                                         BranchDispatcher is proved exact for)
   * `re-fbfrag ast`                   → whether the pattern lies in the fragment `fbFrag` on which the first-byte filter is
                                         proved sound
-  * `re-anchlit info|match hayhex ast` → DetectAnchoredLiteral: `nil` or `prefix/suffix/tbl/ccMin/wMin/minLen` (tbl may be a dash);
+  * `re-anchlit info|match hayhex ast` → DetectAnchoredLiteral: `nil` or `prefix/suffix/tbl/ccMin/wMin/minLen/dotNL` (tbl may be
+                                        a dash; `dotNL` = `WildcardMatchesNewline` as `0`/`1`, LAST field);
                                         `match` = `nil` or MatchAnchoredLiteral
   * `re-fb ast`                       → ExtractFirstBytes: `nil` or `count/complete/tblhex`
   * `re-bd is|search|ismatch hayhex ast` → IsBranchDispatchPattern; Search/IsMatch of the dispatcher meta builds
@@ -97,7 +99,7 @@ def showSpans (l : List (Nat × Nat)) : String :=
   if l.isEmpty then "-" else ",".intercalate (l.map fun (s, e) => s!"{s}.{e}")
 
 def showInfo (i : AnchoredLiteralInfo) : String :=
-  s!"{toHex i.pfx}/{toHex i.sfx}/{match i.charClassTable with | some t => showTable t | none => "-"}/{i.charClassMin}/{i.wildcardMin}/{i.minLength}"
+  s!"{toHex i.pfx}/{toHex i.sfx}/{match i.charClassTable with | some t => showTable t | none => "-"}/{i.charClassMin}/{i.wildcardMin}/{i.minLength}/{if i.wildcardMatchesNewline then 1 else 0}"
 
 def handle? (toks : List String) : Option String :=
   match toks with
@@ -124,21 +126,23 @@ def handle? (toks : List String) : Option String :=
       | "spec" => Driver.showSpan (Spec.compFind (ps.map Spec.partOf) h at_)
       | _ => "bad-op"
     | _, _, _ => "bad-op"
-  | ["anchlit", op0, at_, hex, pfx, sfx, tbl, ccMin, wMin, minLen] => some <|
-    let (op, dotNL) := if op0 = "specs" then ("spec", true) else (op0, false)
-    match parseNat at_, parseHex hex, parseHex pfx, parseHex sfx, parseNat ccMin, parseNat wMin, parseNat minLen with
-    | some at_, some h, some pfx, some sfx, some ccMin, some wMin, some minLen =>
+  | ["anchlit", op0, at_, hex, pfx, sfx, tbl, ccMin, wMin, minLen, nl] => some <|
+    match parseNat at_, parseHex hex, parseHex pfx, parseHex sfx, parseNat ccMin, parseNat wMin, parseNat minLen,
+          (if nl = "1" then some true else if nl = "0" then some false else none) with
+    | some at_, some h, some pfx, some sfx, some ccMin, some wMin, some minLen, some nl =>
+      let (op, dotNL) := if op0 = "specs" then ("spec", true) else if op0 = "specn" then ("spec", false) else (op0, nl)
       match (if tbl = "-" then some none else (parseTable tbl).map some) with
       | none => "bad-op"
       | some t =>
         let info : AnchoredLiteralInfo :=
-          { pfx := pfx, sfx := sfx, charClassTable := t, charClassMin := ccMin, wildcardMin := wMin, minLength := minLen }
+          { pfx := pfx, sfx := sfx, charClassTable := t, charClassMin := ccMin, wildcardMin := wMin, minLength := minLen,
+            wildcardMatchesNewline := nl }
         match op with
         | "match" => toString (matchAnchoredLiteral h info)
         | "find" => Driver.showSpan (anchoredFindAt h info at_)
         | "spec" => toString (Spec.anchoredSpecB dotNL info h)
         | _ => "bad-op"
-    | _, _, _, _, _, _, _ => "bad-op"
+    | _, _, _, _, _, _, _, _ => "bad-op"
   | ["re-ccs", ast] => some <|
     match parseAst ast with
     | some re =>
